@@ -200,51 +200,79 @@ Print Assumptions C05_nonvacuous.
 
 (* ------------------------------------------------------------------ histories: the JWK cache *)
 
-(** [run_history f1 f2 h]: the answers of one authenticator (and its rule-level copies) to the requests [h]
-    against one JWK cache, the published key sets possibly changing in between; the JWKS URL may be a
-    template over the token's unverified issuer.  Every answer is the answer of the cache-less
-    authenticator against the key set that is or was published at the URL rendered for THAT request's token
-    — so a key cached under one (rendered url, kid) is never used for another url or kid —, and against the
-    present one if the request cannot be served from the cache (no kid, or cache disabled). *)
-Theorem C05_cache_history_stateless : forall f1 f2 v h pre s post r,
-  (forall s', In s' h -> cf_validate_jwk (s_cf s') = v) ->
+(** [run_history f1 f2 f4 h]: the answers of the authenticators sharing one key-set endpoint configuration
+    (a mechanism, its rule-level copies, other mechanisms over the same endpoint) to the requests [h] against
+    one JWK cache, the published key sets possibly changing in between; the JWKS URL may be a template over
+    the token's unverified issuer.  [f4 = false] is the code as it is.
+    [judged_statelessly f1 f2 pre s r]: [r] is the answer of the cache-less authenticator to request [s]
+    against the key set that is or was (during [pre]) published at the URL rendered for THAT request's token,
+    validated with THAT request's settings — so a key cached under one (rendered url, kid) is never used for
+    another url or kid —, and against the present key set if the request cannot be served from the cache. *)
+Theorem C05_cache_history_stateless : forall f1 f2 h pre s post r,
+  (exists v, uniform_validation v h) \/ guard_F4 f1 f2 h = false ->
   h = pre ++ s :: post ->
-  nth_error (run_history f1 f2 h) (length pre) = Some r ->
-  exists env, In env (worlds pre s) /\ (fresh s = true -> env = s_env s) /\ r = stateless f1 f2 s env.
-Proof. exact history_stateless. Qed.
+  nth_error (run_history f1 f2 false h) (length pre) = Some r ->
+  judged_statelessly f1 f2 pre s r.
+Proof. exact history_stateless_either. Qed.
 Print Assumptions C05_cache_history_stateless.
 
-(** hence, against the specification: a subject only if the specification accepts the token against what is
-    or was published at its own key-set URL; and always if it accepts it against all of those *)
-Theorem C05_cache_history_spec : forall v h pre s post r,
-  (forall s', In s' h -> cf_validate_jwk (s_cf s') = v) ->
+Theorem C05_judged_statelessly_unfold : forall f1 f2 pre s r,
+  judged_statelessly f1 f2 pre s r <->
+  exists env, In env (s_env s :: map s_env pre) /\ (fresh s = true -> env = s_env s) /\ r = stateless f1 f2 s env.
+Proof. exact judged_statelessly_unfold. Qed.
+Print Assumptions C05_judged_statelessly_unfold.
+
+(** hence, against the specification ([meets_spec]): a subject only if the specification accepts the token
+    against what is or was published at its own key-set URL (now, if it cannot come from the cache); and
+    always if it accepts it against all of those *)
+Theorem C05_cache_history_spec : forall h pre s post r,
+  (exists v, uniform_validation v h) \/ guard_F4 true true h = false ->
   h = pre ++ s :: post ->
-  nth_error (run_history true true h) (length pre) = Some r ->
+  nth_error (run_history true true false h) (length pre) = Some r ->
   sane_clock (s_cf s) (s_now s) -> guard_F3 (s_cred s) = false ->
-  (forall sub, r = Accepted sub ->
-     exists env, In env (worlds pre s) /\ (fresh s = true -> env = s_env s) /\ spec_in s env = Some sub) /\
-  (forall sub, (forall env, In env (worlds pre s) -> spec_in s env = Some sub) -> r = Accepted sub).
+  meets_spec pre s r.
 Proof. exact history_spec. Qed.
 Print Assumptions C05_cache_history_spec.
 
+(** C05-F4 (open): the cached key is not re-validated and the cache key covers neither validate_jwk nor the
+    trust store: a strict authenticator accepts through a key that a lax one cached, although the
+    specification rejects the token in every world of the history.  With fixes/C05-F4.diff it is refused, ... *)
+Theorem C05_F4_refuted :
+  let h := [exc_who true; exc_who false; exc_who true] in
+  guard_F4 true true h = true /\
+  run_history true true false h = [Failed EKey; Accepted "alice"; Accepted "alice"] /\
+  run_history true true true h = [Failed EKey; Accepted "alice"; Failed EKey] /\
+  ~ meets_spec [exc_who true; exc_who false] (exc_who true) (Accepted "alice").
+Proof. exact F4_refuted. Qed.
+Print Assumptions C05_F4_refuted.
+
+(** ... and the statement holds for every history, without hypothesis on the validation settings *)
+Theorem C05_cache_fixed_history_spec : forall h pre s post r,
+  h = pre ++ s :: post ->
+  nth_error (run_history true true true h) (length pre) = Some r ->
+  (judged_statelessly true true pre s r) /\
+  (sane_clock (s_cf s) (s_now s) -> guard_F3 (s_cred s) = false -> meets_spec pre s r).
+Proof. exact history_fixed_both. Qed.
+Print Assumptions C05_cache_fixed_history_spec.
+
 (** while the published key sets do not change the cache is invisible *)
-Theorem C05_cache_transparent : forall f1 f2 v h pre s post r env0,
-  (forall s', In s' h -> cf_validate_jwk (s_cf s') = v) ->
+Theorem C05_cache_transparent : forall f1 f2 f4 v h pre s post r env0,
+  (f4 = false -> uniform_validation v h) ->
   (forall s', In s' h -> s_env s' = env0) ->
   h = pre ++ s :: post ->
-  nth_error (run_history f1 f2 h) (length pre) = Some r ->
+  nth_error (run_history f1 f2 f4 h) (length pre) = Some r ->
   r = stateless f1 f2 s env0.
 Proof. exact cache_transparent. Qed.
 Print Assumptions C05_cache_transparent.
 
 (** non-vacuity: tenants sharing a kid behind a templated endpoint; a rotation *)
 Example C05_cache_examples :
-  run_history true true
+  run_history true true false
     [exc_step true (exc_env 3 4) (exc_tok "tenant-a" "k1" 3);
      exc_step true (exc_env 3 4) (exc_tok "tenant-b" "k1" 3);
      exc_step true (exc_env 3 4) (exc_tok "tenant-b" "k1" 4)]
   = [Accepted "alice"; Failed ESignature; Accepted "alice"] /\
-  run_history true true
+  run_history true true false
     [exc_step true (exc_env 3 4) (exc_tok "tenant-a" "k1" 3);
      exc_step true (exc_env 4 4) (exc_tok "tenant-a" "k1" 3);
      exc_step true (exc_env 4 4) (exc_tok "tenant-a" "k1" 4);
